@@ -156,8 +156,9 @@ def spec_to_cfg(spec, gobject_gir, skip_block=None):
             decls.append(fn_decl(us + '_get_type', [], 'GType'))
             body = []
             for p in t.get('props', []):
-                body.append('<property name="%s" type="%s" flags="%d"/>' % (p['name'], p.get('type', 'gint'),
-                                                                            p.get('flags', 3)))
+                dflt = '' if p.get('default') is None else ' default-value="%s"' % p['default']
+                body.append('<property name="%s" type="%s" flags="%d"%s/>' % (p['name'], p.get('type', 'gint'),
+                                                                              p.get('flags', 3), dflt))
             for s in t.get('sigs', []):
                 body.append('<signal name="%s" return="%s">%s</signal>'
                             % (s['name'], s.get('ret', 'void'), '<param type="gint"/>' * s.get('nparams', 0)))
@@ -330,10 +331,23 @@ def type_key(t):
                                     None if (t.target_fundamental or t.target_giname or t.target_foreign) else t.ctype)
 
 
-def model_nodes(namespace):
+def dump_defaults(cfg):
+    """{(GType name, property name): default} as the runtime dump handed to the scanner reports them"""
+    out = {}
+    if cfg.get('dump'):
+        for ty in ET.fromstring(cfg['dump'].encode('utf-8')):
+            for pr in ty.findall('property'):
+                if pr.get('default-value') is not None:
+                    out[(ty.get('name'), pr.get('name'))] = pr.get('default-value')
+    return out
+
+
+def model_nodes(namespace, defaults=None):
     """the live namespace after the run -> the model's node list (order, containers and names are the
-    pairing facts the model takes as input; nothing annotation-derived is read)"""
+    pairing facts the model takes as input; nothing annotation-derived is read: a property's default is
+    taken from the dump, not from the live object)"""
     ast = scanpipe.mods().ast
+    defaults = defaults or {}
 
     def meth(f):
         return {'symbol': f.symbol, 'name': f.name, 'ret': type_key(f.retval.type), 'nparams': len(f.parameters)}
@@ -358,7 +372,8 @@ def model_nodes(namespace):
             if kind in ('klass', 'interface'):
                 d['props'] = [{'name': p.name, 'readable': bool(p.readable), 'writable': bool(p.writable),
                                'construct_only': bool(p.construct_only),
-                               'is_bool': bool(p.type.is_equiv(ast.TYPE_BOOLEAN))} for p in node.properties]
+                               'is_bool': bool(p.type.is_equiv(ast.TYPE_BOOLEAN)),
+                               'default': defaults.get((node.gtype_name, p.name))} for p in node.properties]
                 d['sigs'] = [s.name for s in node.signals]
                 d['vslots'] = [{'name': v.name, 'ret': type_key(v.retval.type), 'nparams': len(v.parameters)}
                                for v in node.virtual_methods]
@@ -939,6 +954,21 @@ def judge_absence(ctx, cnt, spec, real, idx, gobject_gir, case_id):
                 if strip_attrs(sx, ['setter', 'getter']) == strip_attrs(sy, ['setter', 'getter']):
                     cnt.hit('absence:allowed-accessor-heuristic')
                     continue
+            # ... and then only the chosen getter keeps the inferred glib:get-property: when the documented
+            # function enters or leaves the candidates of property P (a role annotation renames it), a sibling
+            # candidate gains or loses its inferred back reference to P
+            if target is not None and target.startswith('fn:') and addr.startswith('fn:'):
+                acc = ['glib:set-property', 'glib:get-property']
+                if strip_attrs(sx, acc) == strip_attrs(sy, acc):
+                    props = set()
+                    for e in (x, y):
+                        for a in acc:
+                            if e['rec']['attrs'].get(a) is not None:
+                                props.add(e['rec']['attrs'][a].replace('-', '_'))
+                    tnames = set(e2[target]['name'] for e2 in (a_el, b_el) if target in e2)
+                    if any(tn in (pn, 'get_' + pn, 'is_' + pn, 'set_' + pn) for tn in tnames for pn in props):
+                        cnt.hit('absence:allowed-accessor-sibling-candidate')
+                        continue
             # a virtual method inherits from its invoker / from its slot's field documentation
             if addr.startswith('vfunc:'):
                 own = blocks_for(spec, addr)
@@ -1055,6 +1085,10 @@ def gen_spec(rng, size=None):
             t['props'] = [{'name': w, 'flags': rng.choice([1, 2, 3, 3, 11]),
                            'type': rng.choice(['gint', 'gint', 'gboolean'])}
                           for w in uniq([common] + words[2:2 + rng.randint(0, 2)])]
+            for p in t['props']:
+                # the default reported by the runtime dump (an annotation overrides it); '' is a value too
+                if rng.random() < 0.3:
+                    p['default'] = rng.choice(['', '0', 'TRUE', '-1'])
             t['sigs'] = [{'name': w, 'nparams': rng.choice([0, 0, 1])}
                          for w in uniq([common] + words[4:4 + rng.randint(0, 1)])]
             t['vslots'] = [{'name': w, 'nparams': rng.randint(0, 2)}
@@ -1276,7 +1310,7 @@ def check_case(ctx, cnt, spec, gobject_gir, case_id, n_absence, samples=None):
 
 
 def model_request(cfg, real):
-    nodes, clones = model_nodes(real['namespace'])
+    nodes, clones = model_nodes(real['namespace'], dump_defaults(cfg))
     blocks = parse_blocks(cfg)
     return {'op': 'c03.annotate', 'blocks': blocks, 'nodes': nodes}, nodes, clones
 
@@ -1286,7 +1320,7 @@ def model_request_crashed(cfg):
     base = run_real(dict(cfg, comments=[]))
     if 'crash' in base:
         return None, None
-    nodes, _clones = model_nodes(base['namespace'])
+    nodes, _clones = model_nodes(base['namespace'], dump_defaults(cfg))
     return {'op': 'c03.annotate', 'blocks': parse_blocks(cfg), 'nodes': nodes}, nodes
 
 
